@@ -18,14 +18,12 @@ enum ProbeSpec {
     InHandler(u32, u64),
 }
 
-fn cfgs(tier: Tier) -> Vec<(usize, u64)> {
+/// (n, t, largest program size)
+fn cfgs(tier: Tier) -> Vec<(usize, u64, usize)> {
     match tier {
-        Tier::Quick => vec![(1, 1), (2, 3), (3, 2), (4, 5)],
-        Tier::Thorough => vec![(1, 1), (2, 3), (3, 2), (4, 5), (7, 2), (1028, 2_500_000)],
+        Tier::Quick => vec![(1, 1, 4), (2, 3, 4), (3, 2, 4), (4, 5, 4)],
+        Tier::Thorough => vec![(1, 1, 5), (2, 3, 5), (3, 2, 5), (4, 5, 4), (7, 2, 4), (1028, 2_500_000, 3)],
     }
-}
-fn max_events(tier: Tier) -> usize {
-    tier.pick(4, 5)
 }
 
 /// Timestamps every event must carry, computed causally (independent of any tie rule).
@@ -176,16 +174,16 @@ impl Property for C02 {
     }
     fn rule(&self, tier: Tier) -> String {
         format!(
-            "every event program (forest) with 1..={} events, delays from {{0,1,t-1,t,t+1,Y,Y+1}}, x start time in {{0,5,Y+1}} x (n,t) in {:?}, run on the real Runtime; \
+            "every event program (forest) with 1..={} events (per configuration: third number), delays from {{0,1,t-1,t,t+1,Y,Y+1}}, x start time in {{0,5,Y+1}} x (n,t,max events) in {:?}, run on the real Runtime; \
              per program: one plain run + a probe add_event(now - d), d in {{0 (must be accepted), 1, t, start}}, placed before run and inside every handler; \
              a case is one (program, start, config, probe placement) and all are distinct by construction; non-trivial = at least 2 events or a probe",
-            max_events(tier),
+            tier.pick(4, 5),
             cfgs(tier)
         )
     }
     fn assumptions(&self) -> Vec<String> {
         vec![
-            "delays are limited to the alphabet around bucket/year boundaries; at most 4 events per program (5 at thorough depth would be 10^7 programs per configuration)".into(),
+            "delays are limited to the alphabet around bucket/year boundaries; at most 4 (quick) / 5 (thorough, small configurations) events per program".into(),
             "timestamps expected for each event are computed causally from the program (root: start+delay, child: parent+delay), no tie rule involved".into(),
         ]
     }
@@ -193,12 +191,12 @@ impl Property for C02 {
         vec!["plain_run", "probe_past_before_run", "probe_past_in_handler", "probe_now_in_handler", "program_with_zero_delay_child", "program_spanning_a_year"]
     }
     fn explore(&self, ctx: &mut Ctx) {
-        for (n, t) in cfgs(ctx.tier) {
+        for (n, t, maxm) in cfgs(ctx.tier) {
             let y = n as u64 * t;
             let deltas = deltas_for(n, t);
             for start in [0, 5, y + 1] {
                 let cfg = RtCfg { n, t, start };
-                for m in 1..=max_events(ctx.tier) {
+                for m in 1..=maxm {
                     let mut progs = vec![];
                     for_each_program(m, &deltas, |p| {
                         if ctx.mine() {
